@@ -62,6 +62,7 @@ Qed.
 (* the condition is necessary: without a terminator a following hex digit is read as a digit *)
 Theorem unicodesub_hexspell_needs_terminator : unicodesub (s "\41b") <> s "Ab".
 Proof. exact hex_needs_terminator. Qed.
+Print Assumptions unicodesub_hexspell_needs_terminator.
 
 Theorem normalize_u_respell : forall name spelled, Respelling name spelled -> normalize_u spelled = normalize name.
 Proof. exact normalize_u_respell_lemma. Qed.
